@@ -285,7 +285,9 @@ def fam_strings(out, thorough):
                 run_pkt(out, "SUBSCRIBE", dict(id=2, topics=[(s, 1)]))
                 run_pkt(out, "UNSUBSCRIBE", dict(id=2, topics=[s]))
     # mixed-width texts
-    for s in ("aé€😀", "😀😀", "é" * 63 + "a", "€" * 42 + "ab", "߿ࠀ￿\U00010000\U0010ffff", "\u007f\u0080"):
+    # (U+FEFF is a character like any other, also in front: [MQTT-1.5.3-3]; U+FFFD and the last code points of each width)
+    for s in ("aé€😀", "😀😀", "é" * 63 + "a", "€" * 42 + "ab", "߿ࠀ￿\U00010000\U0010ffff", "\u007f\u0080",
+              "\ufeffsensors/t1", "\ufeff", "a\ufeffb\ufeff", "\ufffd/\ufeff\ufeff", "\u07ff\uffff\U0010ffff"):
         run_pkt(out, "PUBLISH", dict(qos=0, dup=0, retain=0, topic=s, id=None, payload=s))
         run_pkt(out, "CONNECT", dict(base_fields("CONNECT"), cid=s, will=1, wtopic=s, wmsg=s, user=1, uname=s, **{"pass": 1}, pwd=s))
         run_pkt(out, "SUBSCRIBE", dict(id=3, topics=[(s, 2), (s + "x", 0)]))
@@ -449,7 +451,7 @@ def fam_prims(out, thorough):
     for k in range(0, len(vals), 2000):
         run_prims(out, "len", vals[k:k + 2000])
     strs = [cps(text_of(n, cp)) for cp in (CP1, CP2, CP3, CP4) for n in ([0, 1, 2, 3, 4, 127, 128, 300] + ([16383, 16384, 65535] if cp in (CP1, CP4) or thorough else []))]
-    strs += [cps(x) for x in ("\u007f\u0080߿ࠀ￿\U00010000\U0010ffff", "aé€😀" * 50)]
+    strs += [cps(x) for x in ("\u007f\u0080߿ࠀ￿\U00010000\U0010ffff", "aé€😀" * 50, "\ufeffabc", "\ufeff", "ab\ufeff", "\ufeff\ufeff")]
     for k in range(0, len(strs), 8):
         run_prims(out, "str", strs[k:k + 8])
     # over-long strings must be refused
